@@ -286,11 +286,7 @@ def run_wait(case, st):
                 st.violation("C16:wait:spurious-entry", rc, "None at the time-out", f"{got} (during={during})")
 
     if "schedule" in case:
-        simenv.new_world()
-        s = vsched.replay_scheduler(case)
-        result = harness(s)
-        s.run()
-        on_exec(s, result())
+        on_exec(*vsched.replay(harness, case))
         return
     stats = vsched.explore_with_crosscheck(st, harness, P, on_exec, case)
     st.states += stats["executions"]
